@@ -74,6 +74,8 @@ class Intercept:
                 return Model()
             else:
                 return self
+        elif isinstance(other, (Term, GroupSpecificTerm)):
+            return self
         else:  # pragma: no cover
             return NotImplemented
 
